@@ -1313,3 +1313,71 @@ pub(crate) mod uns_h {
         core::mem::forget(x);
     } }
 }
+
+// ------------------------------------------------------------------------------------------
+// Check mode (#[kani::proof_for_contract]): requires assumed, body executed, ensures asserted, and
+// CBMC's frame instrumentation enforces that nothing outside an (empty) modifies set is written.
+// Only for functions that never free (Kani 0.68 cannot express `frees`), thorough tier.
+// ------------------------------------------------------------------------------------------
+// @h props=C04,C03 mode=check fuc=Arc::count
+#[kani::proof_for_contract(Arc::<S9a8>::count)]
+fn c04_chk_arc_count() {
+    vrt::ghost_reset();
+    let a = mk(S9a8::any(), any_count());
+    let _ = Arc::count(&a);
+    kani::cover!(true, "END");
+    core::mem::forget(a);
+}
+// @h props=C04 mode=check fuc=Arc::strong_count
+#[kani::proof_for_contract(Arc::<S9a8>::strong_count)]
+fn c04_chk_arc_strong_count() {
+    vrt::ghost_reset();
+    let a = mk(S9a8::any(), any_count());
+    let _ = Arc::strong_count(&a);
+    kani::cover!(true, "END");
+    core::mem::forget(a);
+}
+// @h props=C03 mode=check fuc=Arc::is_unique
+#[kani::proof_for_contract(Arc::<S9a8>::is_unique)]
+fn c03_chk_arc_is_unique() {
+    vrt::ghost_reset();
+    let a = mk(S9a8::any(), any_count());
+    let _ = a.is_unique();
+    kani::cover!(true, "END");
+    core::mem::forget(a);
+}
+// @h props=C11 mode=check fuc=Arc::as_ptr
+#[kani::proof_for_contract(Arc::<S16a16>::as_ptr)]
+fn c11_chk_arc_as_ptr() {
+    vrt::ghost_reset();
+    let a = mk(S16a16::any(), any_count());
+    let _ = Arc::as_ptr(&a);
+    kani::cover!(true, "END");
+    core::mem::forget(a);
+}
+// @h props=C11 mode=check fuc=Arc::heap_ptr
+#[kani::proof_for_contract(Arc::<S16a16>::heap_ptr)]
+fn c11_chk_arc_heap_ptr() {
+    vrt::ghost_reset();
+    let a = mk(S16a16::any(), any_count());
+    let _ = a.heap_ptr();
+    kani::cover!(true, "END");
+    core::mem::forget(a);
+}
+// @h props=C11,C05,C12 mode=check fuc=ArcInner::offset_of_data
+#[kani::proof_for_contract(ArcInner::<S64a64>::offset_of_data)]
+fn c11_chk_offset_of_data() {
+    vrt::ghost_reset();
+    let a = Arc::new(S64a64::any());
+    let _ = unsafe { ArcInner::<S64a64>::offset_of_data(Arc::as_ptr(&a)) };
+    kani::cover!(true, "END");
+    core::mem::forget(a);
+}
+// @h props=C01,C04,C11 mode=check fuc=Arc::into_raw
+#[kani::proof_for_contract(Arc::<S16a16>::into_raw)]
+fn c11_chk_arc_into_raw() {
+    vrt::ghost_reset();
+    let a = mk(S16a16::any(), any_count());
+    let _ = Arc::into_raw(a);
+    kani::cover!(true, "END");
+}
